@@ -211,6 +211,17 @@ static void h_assert_LU_eq(const dense_t *DL, const dense_t *DU, const dense_t *
       for (int k = 0; k <= j && k < DL->n; k++) if (DL->nz[i][k] && DU->nz[k][j]) { elem_t t = e_mul(DL->a[i][k], DU->a[k][j]); s = e_add(s, t); sc += e_abs1(t); any = 1; }
       if (any) e_assert_zero(e_sub(s, B->a[i][j]), (double)sc, id); }
 }
+
+/* pivoting bounds on the Schur-complement candidates c_i = B(i,j) - sum_{k<j} L(i,k) U(k,j) (i >= j), recomputed from the leading factors:
+   |c_i| u <= |c_j| (the stored multiplier is c_i/c_j), and - when no remembered pivots are reused - diagonal preference */
+static void h_assert_pivot_bounds(const dense_t *DL, const dense_t *DU, const dense_t *B, int m, int n, real_t u, const int *perm_r, const int *iperm_c, int diag_pref, const char *id_bound, const char *id_diag) {
+  for (int j = 0; j < n; j++) { elem_t cand[NMAX]; unsigned char cnz[NMAX];
+    for (int i = j; i < m; i++) { elem_t c = B->a[i][j]; cnz[i] = B->nz[i][j]; for (int k = 0; k < j; k++) if (DL->nz[i][k] && DU->nz[k][j]) { c = e_sub(c, e_mul(DL->a[i][k], DU->a[k][j])); cnz[i] = 1; } cand[i] = c; }
+    real_t piv = e_abs1(cand[j]);
+    for (int i = j + 1; i < m; i++) if (cnz[i]) slusym_assert_cmp(5, (double)(e_abs1(cand[i]) * u), (double)piv, 1.0, id_bound);
+    if (diag_pref) { int oc = iperm_c[j]; if (oc < m) { int pr = perm_r[oc]; if (pr > j && cnz[pr]) { real_t d = e_abs1(cand[pr]); slusym_assert_or2(1, (double)d, 0.0, 4, (double)d, (double)(u * piv), id_diag); } } }
+  }
+}
 static void h_set_tuning(int panel, int relax, int maxsuper, int rowblk, int colblk, int fill) { h_tune[1] = panel; h_tune[2] = relax; h_tune[3] = maxsuper; h_tune[4] = rowblk; h_tune[5] = colblk; h_tune[6] = fill; h_tune[7] = maxsuper; }
 static long h_arg(int argc, char **argv, int i, long dflt) { return (i + 1 < argc) ? strtol(argv[i + 1], 0, 0) : dflt; }
 #endif
